@@ -410,7 +410,7 @@ func TestCheck(t *testing.T) {
 	// top-ups into the hysteresis band, exits -> each block gets the relaxed-predicate withdrawal mutations
 	if !r.Search(t, "tour-withdrawal-edges", 101, nt*2, func(rt *rapid.T) (any, *report.Failure) {
 		cc := sim.TourWithdrawalEdges(rt, []string{"PAY-WD-PARTIAL-LOW-EB", "PAY-WD-PARTIAL-NOCRED", "PAY-WD-PARTIAL-AT-MAX", "PAY-WD-FULL-EARLY",
-			"PAY-WD-FULL-NOCRED", "PAY-WD-SWEEP-PLUS-ONE", "PAY-WD-COUNT", "PAY-WD-FIELD", "PSL-VALIDATOR-WITHDRAWABLE", "ASL-VALIDATOR-WITHDRAWABLE", "BYTES"})
+			"PAY-WD-FULL-NOCRED", "PAY-WD-SWEEP-PLUS-ONE", "PAY-WD-COUNT", "PAY-WD-FIELD", "PSL-VALIDATOR-WITHDRAWABLE", "ASL-VALIDATOR-WITHDRAWABLE", "BLSCH-NON-BLS-PREFIX", "BYTES"})
 		return cc, run(r, cc)
 	}) {
 		return
